@@ -260,7 +260,7 @@ def check_dead(ctx, srv, uid, helper, rng):
             rr = srv.send([ref_op], ident, version)
             ctx.ev()
             ctx.count('post_destroy_probes')
-            ctx.cell('dead', name, ident[0])
+            ctx.cell('dead', name, ident[0], '%d.%d' % version)
             if r.error is not None or rr.error is not None:
                 if (r.error is None) != (rr.error is None):
                     ctx.violation('alive:%s|raised' % name, 'probe on a destroyed identifier raised %r' % (r.error,), None)
